@@ -343,11 +343,53 @@ func (c *Ctx) Ite(g, a, b *Term) *Term {
 	if b.Op == OIte && b.A[0] == g {
 		return c.Ite(g, a, b.A[2])
 	}
+	// conditional accumulation: ite(g, acc op k, acc) = acc op ite(g, k, neutral). Keeps chains of
+	// guarded updates flat (nested ite-accumulators make solver rewriters blow up).
+	if a.Sort.K == SBV {
+		if r := c.accumRule(g, a, b, false); r != nil {
+			return r
+		}
+		if r := c.accumRule(g, b, a, true); r != nil {
+			return r
+		}
+	}
 	// ite(g, x, ite(h, x, y)) = ite(g∨h, x, y)
 	if b.Op == OIte && b.A[1] == a {
 		return c.Ite(c.Or(g, b.A[0]), a, b.A[2])
 	}
 	return c.mk(OIte, a.Sort, 0, "", g, a, b)
+}
+
+// accumRule: upd = acc op k  (taken when g, or when !g if neg) and the other arm is acc itself.
+func (c *Ctx) accumRule(g, upd, acc *Term, neg bool) *Term {
+	var k *Term
+	switch upd.Op {
+	case OBvXor, OBvOr, OBvAdd, OBvAnd:
+		if upd.A[0] == acc {
+			k = upd.A[1]
+		} else if upd.A[1] == acc {
+			k = upd.A[0]
+		}
+	case OBvSub:
+		if upd.A[0] == acc {
+			k = upd.A[1]
+		}
+	}
+	if k == nil {
+		return nil
+	}
+	w := acc.Sort.W
+	neutral := c.Const(w, 0)
+	if upd.Op == OBvAnd {
+		neutral = c.Const(w, mask(w))
+	}
+	var sel *Term
+	if neg {
+		sel = c.Ite(g, neutral, k)
+	} else {
+		sel = c.Ite(g, k, neutral)
+	}
+	return c.bin(upd.Op, acc, sel)
 }
 
 func (c *Ctx) Eq(a, b *Term) *Term {
@@ -894,27 +936,21 @@ func (c *Ctx) ConstArr(iw int, v *Term) *Term {
 }
 
 func (c *Ctx) Select(a, i *Term) *Term {
-	for {
-		switch a.Op {
-		case OConstArr:
-			return a.A[0]
-		case OStore:
-			if a.A[1] == i {
-				return a.A[2]
-			}
-			if a.A[1].IsConst() && i.IsConst() {
-				a = a.A[0]
-				continue
-			}
-			e := c.Eq(a.A[1], i)
-			if e.IsFalse() {
-				a = a.A[0]
-				continue
-			}
-		case OIte:
-			return c.Ite(a.A[0], c.Select(a.A[1], i), c.Select(a.A[2], i))
+	switch a.Op {
+	case OConstArr:
+		return a.A[0]
+	case OStore:
+		// read-over-write, always expanded: array terms never nest below a select
+		e := c.Eq(a.A[1], i)
+		if e.IsTrue() {
+			return a.A[2]
 		}
-		break
+		if e.IsFalse() {
+			return c.Select(a.A[0], i)
+		}
+		return c.Ite(e, a.A[2], c.Select(a.A[0], i))
+	case OIte:
+		return c.Ite(a.A[0], c.Select(a.A[1], i), c.Select(a.A[2], i))
 	}
 	return c.mk(OSelect, BV(a.Sort.W), 0, "", a, i)
 }
